@@ -213,6 +213,25 @@ func c16Enum(thorough bool) mc.Enum {
 			}
 		}
 	}
+	// (e) a live name that its owner has put on the marketplace (or that carries open bids) is still only its owner's to register
+	for _, prep := range []string{"listed", "bid-on", "listed+bid-on"} {
+		for _, who := range []string{"B", "A"} {
+			for _, nm := range []string{"live.jkl", "soon.jkl"} {
+				prep, who, nm := prep, who, nm
+				e.Cases = append(e.Cases, mc.Case{Desc: fmt.Sprintf("marketplace|%s|%s|%s", prep, nm, who), Run: func(env world.Env) mc.CaseResult {
+					w := env.W()
+					if strings.Contains(prep, "listed") {
+						mustOK(env.Deliver(rnstypes.NewMsgList(w.A("A").Bech, nm, sdk.NewInt64Coin("ujkl", 5))), "List")
+					}
+					if strings.Contains(prep, "bid-on") {
+						mustOK(env.Deliver(rnstypes.NewMsgBid(w.A("B").Bech, nm, sdk.NewInt64Coin("ujkl", 7))), "Bid")
+					}
+					env.NextBlock(6 * time.Second)
+					return c16Register(env, who, nm, 1)
+				}})
+			}
+		}
+	}
 	// (d) the free-name message at a height whose generated starter name is somebody's paid, live name
 	for off := 0; off <= 4; off++ {
 		off := off
